@@ -815,6 +815,18 @@ func (r *Run) conv(fr *frame, instr *ssa.Convert, tdst, tsrc types.Type, x Value
 		if !ok {
 			fr.unsupported("convert %v to %v", tsrc, tdst)
 		}
+		if ut_src.Kind() == types.UnsafePointer && db.Kind() == types.Uintptr {
+			// address as integer: only nil-ness is meaningful
+			switch p := x.(type) {
+			case *Value:
+				if p == nil {
+					return r.tt.Const(64, 0)
+				}
+				return r.tt.Const(64, 0xc000100000)
+			case UPtr:
+				return r.tt.Const(64, 0xc000200000)
+			}
+		}
 		switch xv := x.(type) {
 		case *Term:
 			switch {
